@@ -31,8 +31,23 @@ func PanicVal(v any) string {
 	if n, ok := v.(int); ok {
 		return fmt.Sprint(n)
 	}
-	if rv := reflect.ValueOf(v); rv.IsValid() && rv.Kind() == reflect.Int {
-		return fmt.Sprint(rv.Int())
+	if rv := reflect.ValueOf(v); rv.IsValid() {
+		switch rv.Kind() {
+		case reflect.Int:
+			return fmt.Sprint(rv.Int())
+		case reflect.Slice: // panic([]int{v})
+			if rv.Len() == 1 && rv.Index(0).Kind() == reflect.Int {
+				return fmt.Sprint(rv.Index(0).Int())
+			}
+		case reflect.Struct: // panic(pv{v, nil})
+			if rv.NumField() == 2 && rv.Field(0).Kind() == reflect.Int {
+				return fmt.Sprint(rv.Field(0).Int())
+			}
+		case reflect.Map: // panic(map[int]int{0: v})
+			if e := rv.MapIndex(reflect.ValueOf(0)); e.IsValid() && e.Kind() == reflect.Int {
+				return fmt.Sprint(e.Int())
+			}
+		}
 	}
 	return "fault"
 }
@@ -117,6 +132,9 @@ func (b *Beh) NativeAgrees(stdout, stderr string, exit int) (bool, string) {
 		return false, fmt.Sprintf("exit %d, no panic", exit)
 	}
 	if pv := b.PanicValue(); pv != "fault" {
+		if strings.Contains(stderr, "panic: ([]int)") || strings.Contains(stderr, "panic: (map[int]int)") || strings.Contains(stderr, "panic: main.pv{") || strings.Contains(stderr, "panic: (main.pv)") {
+			return true, "" // the value travels in a carrier that the runtime does not print as a number
+		}
 		if !strings.Contains(stderr, "panic: "+pv) && !strings.Contains(stderr, "panic: main.") {
 			// a re-panic prints "panic: 6 [recovered]\n\tpanic: 7": the last one counts
 			return false, "panic value differs"
